@@ -286,13 +286,17 @@ class TTCFG(
             if state in _counts:
                 return _counts[state]
             if state not in self.rules:
-                return {state[1][1]: 1}
+                if isinstance(state[0], UnknownType):
+                    # end of a derivation
+                    return {state[1][1]: 1}
+                # a non-terminal without rules derives no program
+                return {}
             output: Dict[T, int] = defaultdict(int)
             for P in self.rules[state]:
                 info, new_state = self.derive(self.start_information(), state, P)
                 local = __compute__(new_state)
                 while info:
-                    base = info.pop()
+                    base = info.pop(0)
                     next_local: Dict[T, int] = defaultdict(int)
                     for v, cnt in local.items():
                         next_new_state = (base[0], (base[1], v))
